@@ -24,7 +24,7 @@ type verifNodeSim struct {
 	txBroken    bool
 	txQueue     []string
 	asked       bool
-	slotState   int
+	slotState   map[string]int // per hash tag: 0 stable here, 1 MOVED away, 2 migrating (ASK per key)
 }
 
 func (n *verifNodeSim) doMulti(multi []Completed) []RedisResult {
@@ -56,12 +56,15 @@ func (n *verifNodeSim) doMulti(multi []Completed) []RedisResult {
 			if n.isSource {
 				// the slot is stable here, has MOVED away, or is migrating (then each key either
 				// still lives here or is answered ASK): a node never mixes MOVED and ASK for one slot
-				if n.slotState < 0 {
-					n.slotState = verifChoose(3)
+				tag := argv[1][:3]
+				st, known := n.slotState[tag]
+				if !known {
+					st = verifChoose(3)
+					n.slotState[tag] = st
 				}
 				f, seen := n.fate[id]
 				if !seen {
-					switch n.slotState {
+					switch st {
 					case 1:
 						f = 1
 					case 2:
@@ -113,7 +116,7 @@ func verifRefreshFill(c *clusterClient, ctx context.Context) error {
 }
 
 func VerifC20_batch() {
-	a := &verifNodeSim{name: "a:1", other: "b:1", fate: map[string]int{}, isSource: true, slotState: -1}
+	a := &verifNodeSim{name: "a:1", other: "b:1", fate: map[string]int{}, isSource: true, slotState: map[string]int{}}
 	b := &verifNodeSim{name: "b:1", other: "a:1", fate: map[string]int{}}
 	ca, cb := &verifStubConn{addr: "a:1"}, &verifStubConn{addr: "b:1"}
 	ca.doMulti = func(ctx context.Context, m []Completed) []RedisResult { return a.doMulti(m) }
@@ -124,6 +127,7 @@ func VerifC20_batch() {
 		retryHandler: newRetryer(defaultRetryDelayFn), stopCh: make(chan struct{})}
 	bd := c.B()
 	tx := verifChoose(2) == 1
+	twoSlots := false
 	var multi []Completed
 	var ids []string
 	if tx {
@@ -134,10 +138,12 @@ func VerifC20_batch() {
 		}
 	} else {
 		n := 2 + verifChoose(2)
-		split := verifChoose(2) == 1 // the batch is split across two nodes: odd positions live on b
+		layout := verifChoose(3)
+		split := layout == 1 // the batch is split across two nodes: odd positions live on b
+		twoSlots = layout == 2 // two slots of the same source node, each with its own state (one may have MOVED while the other is migrating to the same target)
 		for i := 0; i < n; i++ {
 			tag := "{s}"
-			if split && i%2 == 1 {
+			if (split || twoSlots) && i%2 == 1 {
 				tag = "{t}"
 			}
 			multi = append(multi, bd.Set().Key(tag+strconv.Itoa(i)).Value(strconv.Itoa(i)).Build().Pin())
@@ -152,7 +158,7 @@ func VerifC20_batch() {
 		ids = append(ids, strings.Join(m.Commands(), " "))
 		if s := m.Slot(); s != cmds.InitSlot {
 			owner := conn(ca)
-			if strings.Contains(m.Commands()[1], "{t}") {
+			if strings.Contains(m.Commands()[1], "{t}") && !twoSlots {
 				owner = cb
 			}
 			if gap {
